@@ -2,7 +2,8 @@
 //! starting with the very first call into the library (C16, phases B and C),
 //! and is the program run under ThreadSanitizer and Miri.
 //!
-//!   racer baseline --cases F --out B
+//!   racer baseline --cases F --out B          (every case in its OWN fresh process: no call history at all)
+//!   racer one --op O --profile P --a A --b B   (one call through a fresh instance; prints the escaped result)
 //!   racer run      --cases F --expect B --threads N --rounds R --seed S
 //!   racer selftest --threads N --rounds R --seed S
 //!
@@ -73,15 +74,53 @@ fn main() {
     let mode = args.get(1).map(|s| s.as_str()).unwrap_or("");
     std::panic::set_hook(Box::new(|_| {}));
     match mode {
+        "one" => {
+            let a = rawfmt::unesc(&arg(&args, "--a").unwrap_or_default()).expect("escape");
+            let b = rawfmt::unesc(&arg(&args, "--b").unwrap_or_default()).expect("escape");
+            let r = rawfmt::raw(&arg(&args, "--profile").expect("--profile"), &arg(&args, "--op").expect("--op"), &a, &b, false);
+            println!("{}", rawfmt::esc(&r));
+        }
         "baseline" => {
             let cases = read_cases(&arg(&args, "--cases").expect("--cases"));
-            let mut out = String::new();
-            for c in &cases {
-                out.push_str(&rawfmt::esc(&rawfmt::raw(&c.profile, &c.op, &c.a, &c.b, false)));
-                out.push('\n');
+            let exe = std::env::current_exe().expect("current_exe");
+            let n = cases.len();
+            let cases = Arc::new(cases);
+            let next = Arc::new(std::sync::atomic::AtomicUsize::new(0));
+            let workers = std::thread::available_parallelism().map(|x| x.get()).unwrap_or(4).min(16);
+            let mut hs = Vec::new();
+            for _ in 0..workers {
+                let (cases, next, exe) = (cases.clone(), next.clone(), exe.clone());
+                hs.push(std::thread::spawn(move || {
+                    let mut out: Vec<(usize, String)> = Vec::new();
+                    loop {
+                        let i = next.fetch_add(1, Ordering::SeqCst);
+                        if i >= cases.len() {
+                            break;
+                        }
+                        let c = &cases[i];
+                        // very long arguments do not fit on a command line: those few are evaluated here
+                        let line = if c.a.len() + c.b.len() > 60_000 {
+                            rawfmt::esc(&rawfmt::raw(&c.profile, &c.op, &c.a, &c.b, false))
+                        } else {
+                            let o = std::process::Command::new(&exe)
+                                .args(["one", "--op", &c.op, "--profile", &c.profile, "--a", &rawfmt::esc(&c.a), "--b", &rawfmt::esc(&c.b)])
+                                .output()
+                                .expect("spawn");
+                            String::from_utf8_lossy(&o.stdout).trim_end_matches('\n').to_string()
+                        };
+                        out.push((i, line));
+                    }
+                    out
+                }));
             }
-            std::fs::write(arg(&args, "--out").expect("--out"), out).expect("write");
-            println!("RACER baseline cases={}", cases.len());
+            let mut lines = vec![String::new(); n];
+            for h in hs {
+                for (i, l) in h.join().expect("baseline worker") {
+                    lines[i] = l;
+                }
+            }
+            std::fs::write(arg(&args, "--out").expect("--out"), lines.join("\n") + "\n").expect("write");
+            println!("RACER baseline cases={} processes={}", n, n);
         }
         "run" | "selftest" => {
             let threads: usize = arg(&args, "--threads").and_then(|s| s.parse().ok()).unwrap_or(8);
@@ -129,6 +168,24 @@ fn main() {
                         for i in (1..n).rev() {
                             let j = (next(&mut x) % (i as u64 + 1)) as usize;
                             order.swap(i, j);
+                        }
+                        if r % 2 == 1 {
+                            // input-major round: all operations on one input back to back, in a random
+                            // order of profiles (what a cache shared between profiles, or keyed by the
+                            // argument only, would confuse)
+                            order.sort_by(|x, y| cases[*x].a.cmp(&cases[*y].a));
+                            let mut start = 0;
+                            while start < n {
+                                let mut end = start + 1;
+                                while end < n && cases[order[end]].a == cases[order[start]].a {
+                                    end += 1;
+                                }
+                                for i in (start + 1..end).rev() {
+                                    let j = start + (next(&mut x) % ((i - start) as u64 + 1)) as usize;
+                                    order.swap(i, j);
+                                }
+                                start = end;
+                            }
                         }
                         if r == 0 {
                             let want = rawfmt::PROFILES[t % 4];
